@@ -27,10 +27,13 @@ def _f32_codec(c):
 class SBytes:
     _pyvc_symbolic = True
 
-    def __init__(self, length, fn, mutable=False):
+    def __init__(self, length, fn, mutable=False, regions=None):
         self.len = length
         self.fn = fn          # i -> SInt|int byte
         self.mutable = mutable
+        # provenance of byte ranges: (start, length, kind, payload); kind "uint" (payload = value, length = size)
+        # or "array" (payload = (SArr, order, itemsize)); lets read_uint() avoid byte-level div/mod arithmetic
+        self.regions = list(regions or [])
 
     # ---- constructors
     @staticmethod
@@ -52,7 +55,7 @@ class SBytes:
 
         def fn(i):
             if isinstance(i, int):
-                return b[i]
+                return b[i] if 0 <= i < len(b) else 0
             r = 0
             for k in range(len(b) - 1, -1, -1):
                 r = ite(i == k, b[k], r)
@@ -81,7 +84,7 @@ class SBytes:
             q, r = c.divmod(i, isz) if isinstance(i, SInt) else divmod(i, isz)
             e = _elem_to_uint(arr.elem(*unravel(q, shape, order)), dt)
             return _byte_of(e, (isz - 1 - r) if big else r, isz)
-        out = SBytes(n * isz, fn)
+        out = SBytes(n * isz, fn, regions=[(0, n * isz, "array", (arr, order, isz))])
         out.packed = (arr, order)
         return out
 
@@ -117,7 +120,13 @@ class SBytes:
         o = as_sbytes(o)
         a, b = self, o
         n = a.len
-        return SBytes(a.len + b.len, lambda i: _pick(i < n, a.fn(i), b.fn(i - n)), mutable=self.mutable)
+        def fn(i):
+            cnd = (i < n)
+            if isinstance(cnd, bool):
+                return a.fn(i) if cnd else b.fn(i - n)
+            return ite(cnd, a.fn(i), b.fn(i - n))
+        regs = list(a.regions) + [(n + st, ln, kd, pl) for (st, ln, kd, pl) in b.regions]
+        return SBytes(a.len + b.len, fn, mutable=self.mutable, regions=regs)
 
     def __radd__(self, o):
         return as_sbytes(o).__add__(self)
@@ -374,4 +383,45 @@ def m_pack(interp, fmt, *vals):
             p -= s
             out = ite(And(i >= p, i < p + s), _byte_of(v, i - p, s), out)
         return out
-    return SBytes(total, fn)
+    regs = []
+    p = 0
+    for v, sz in pieces:
+        regs.append((p, sz, "uint", v))
+        p += sz
+    return SBytes(total, fn, regions=regs)
+
+
+def read_uint(sb, off, n):
+    """little-endian unsigned integer at sb[off:off+n]; uses the provenance of the bytes when the range
+    is exactly a packed integer or an element of an array written by tobytes (then no byte arithmetic is
+    needed -- justified by lemma:le-bytes-roundtrip), else composes the bytes"""
+    c = ctx()
+    for (st, ln, kind, payload) in reversed(sb.regions):
+        if kind == "uint" and ln == n:
+            same = (off == st)
+            if same is True or (not isinstance(same, bool) and not c._feasible(core.Z.Not(core._b(same)))):
+                return payload if isinstance(payload, (SInt, int)) else SInt(core._i(payload))
+        if kind == "array":
+            arr, order, isz = payload
+            if isz != n:
+                continue
+            rel = off - st
+            if isinstance(rel, int):
+                if rel % isz or rel < 0:
+                    continue
+                q = rel // isz
+                inside = (q * isz + isz <= ln)
+            else:
+                m = c._match_div_const(z3_simplify(core._i(rel)), isz)
+                if m is None or m[1] != 0:
+                    continue
+                q = m[0]
+                inside = And(q >= 0, q * isz + isz <= ln)
+            if inside is True or (not isinstance(inside, bool) and not c._feasible(core.Z.Not(core._b(inside)))):
+                c.trust("lemma:le-bytes-roundtrip (bytes written by tobytes/struct.pack recompose to the value written)")
+                return _elem_to_uint(arr.elem(*unravel(q, arr.shape, order)), arr.dtype)
+    return le_compose(sb.fn, off, n)
+
+
+def z3_simplify(t):
+    return core.Z.simplify(t, som=True)
